@@ -7,6 +7,17 @@
 #include <stdbool.h>
 
 #define ARRAY_SIZE(x) (sizeof(x) / sizeof((x)[0]))
+#ifndef OSMO_MAX
+#define OSMO_MAX(a, b) ((a) >= (b) ? (a) : (b))
+#endif
+#ifndef OSMO_MIN
+#define OSMO_MIN(a, b) ((a) >= (b) ? (b) : (a))
+#endif
+#define OSMO_STRINGIFY(x) #x
+#define OSMO_STRINGIFY_VAL(x) OSMO_STRINGIFY(x)
+#define OSMO_LIKELY(x) __builtin_expect(!!(x), 1)
+#define OSMO_UNLIKELY(x) __builtin_expect(!!(x), 0)
+#define OSMO_DEPRECATED(text) __attribute__((__deprecated__(text)))
 
 struct value_string {
 	uint32_t value;
